@@ -75,8 +75,9 @@ class SPESearchNextPoints(View):
       self.constraint_thresholds,
     )
     # HACK: Manually force the split of lower and greater points based on user thresholds
+    # (only when some observation violates a threshold: an empty greater set has no density and gamma would be 0)
     observation_count, dim = one_hot_points_sampled_points.shape
-    if observation_count - sum(metric_constraints_violations) > dim:
+    if sum(metric_constraints_violations) > 0 and observation_count - sum(metric_constraints_violations) > dim:
       spe.lower_points = one_hot_points_sampled_points[~metric_constraints_violations]
       spe.greater_points = one_hot_points_sampled_points[metric_constraints_violations]
       spe.gamma = sum(metric_constraints_violations) / len(metric_constraints_violations)
